@@ -961,10 +961,10 @@ theorem specSteps_append (s₁ s₂ : List Step) (z : DVal) :
     | error e => rfl
     | ok z' => exact ih z'
 
-theorem applyStep_obs (s : Step) (hs : s.Good) (z : Val) (hz : z.Shaped) :
+theorem applyStep_obs (s : Step) (hs : s.WF) (z : Val) (hz : z.Shaped) :
     (applyStep s z).map obs = specStep s (obs z) := by
   cases s with
-  | proj c => exact applyCore_obs c hs.1 z hz
+  | proj c => exact applyCore_obs c hs z hz
   | left a op =>
     simp only [applyStep, specStep, applyLeft]
     cases specLeft op a (obs z) with
@@ -976,7 +976,7 @@ theorem specStep_shaped (s : Step) (d d' : DVal) (hd : d.Shaped) (h : specStep s
   | proj c => exact specCore_shaped c d d' h
   | left a op => exact specLeft_shaped op a d d' hd h
 
-theorem applySteps_obs (ss : List Step) (hs : ∀ s ∈ ss, s.Good) (z : Val) (hz : z.Shaped) :
+theorem applySteps_obs (ss : List Step) (hs : ∀ s ∈ ss, s.WF) (z : Val) (hz : z.Shaped) :
     (applySteps ss z).map obs = specSteps ss (obs z) := by
   induction ss generalizing z with
   | nil => rfl
@@ -1060,5 +1060,12 @@ theorem sizeOr_range (k n : Nat) (h : sizeOr none (List.range k) = .ok n) : n = 
     | succ k =>
       have := h2 k (List.mem_range.mpr (Nat.lt_succ_self k))
       omega
+
+theorem Step.Good.wf {s : Step} (h : s.Good) : s.WF := by
+  cases s with
+  | proj c => exact h.1
+  | left a op => trivial
+
+theorem Slicer.Good.wf {S : Slicer} (h : S.Good) : S.WF := ⟨h.1.1, fun s hs => (h.2 s hs).wf⟩
 
 end PorepyVerif.C36
